@@ -210,7 +210,7 @@ package route
 //@ func (*baseTree).Match
 //@   props C07 C01 C02 C05
 //@   requires treeWF()
-//@   ensures[C01] result0 == specNext(t, trimLeftSlash(path), 0, header) && result2 == (result0 != nil)
+//@   ensures[C01,C09] result0 == specNext(t, trimLeftSlash(path), 0, header) && result2 == (result0 != nil)
 //@   ghost after matchNextSegment#0: params.raw = mapvals(params)
 //@   ensures[C02] result2 ==> forall k string :: result1[k] == ite(has(result1, k), decodeOnce(result1.raw[k]), result1.raw[k])
 //@   loop 0 invariant[C02] params != nil && (forall k string :: params[k] == ite(visited(k), decodeOnce(params.raw[k]), params.raw[k])) && (forall k string :: visited(k) ==> has(params, k))
@@ -226,7 +226,7 @@ package route
 //@   assert[C02] before matchSubtree#0: noSlash(path[next:next + i]) && path[next + i] == '/'
 //@   assert[C02] before matchLeaf#0: noSlash(path[next:])
 //@   requires treeWF()
-//@   ensures[C01] result0 == specNext(t, path, next, header) && result1 == (result0 != nil)
+//@   ensures[C01,C09] result0 == specNext(t, path, next, header) && result1 == (result0 != nil)
 //@   requires 0 <= next && next <= len(path) && params != nil
 //@   modifies params[*], Segment.str, Segment.strOnce.fired
 //@   ensures treeWF()
@@ -237,8 +237,8 @@ package route
 //@   props C07 C01 C02 C05
 //@   requires treeWF()
 //@   requires len(segment) <= next - 1 && segment == path[next - 1 - len(segment):next - 1] && path[next - 1] == '/'
-//@   ensures[C01] result0 == specSub(t, path, segment, next, header, 0) && result1 == (result0 != nil)
-//@   loop 0 invariant[C01] specSub(t, path, segment, next, header, 0) == specSub(t, path, segment, next, header, rangeindex + 1)
+//@   ensures[C01,C09] result0 == specSub(t, path, segment, next, header, 0) && result1 == (result0 != nil)
+//@   loop 0 invariant[C01,C09] specSub(t, path, segment, next, header, 0) == specSub(t, path, segment, next, header, rangeindex + 1)
 //@   requires 1 <= next && next <= len(path) && params != nil
 //@   modifies params[*], Segment.str, Segment.strOnce.fired
 //@   ensures treeWF()
@@ -250,16 +250,16 @@ package route
 //@   requires treeWF() && params != nil
 //@   modifies params[*]
 //@   ensures result1 ==> result0 != nil
-//@   ensures[C01] result0 == firstLeaf(t, segment, header, 0) && result1 == (result0 != nil)
-//@   loop 0 invariant[C01] firstLeaf(t, segment, header, 0) == firstLeaf(t, segment, header, rangeindex + 1)
+//@   ensures[C01,C09] result0 == firstLeaf(t, segment, header, 0) && result1 == (result0 != nil)
+//@   loop 0 invariant[C01,C09] firstLeaf(t, segment, header, 0) == firstLeaf(t, segment, header, rangeindex + 1)
 
 //@ func (*matchAllTree).matchAll
 //@   decreases 3 * (len(path) - next) + 1
 //@   loop 0 decreases len(path) - next
 //@   props C07 C01 C02 C05
 //@   requires treeWF()
-//@   ensures[C01] result0 == specAll(t, path, next, header, 1) && result1 == (result0 != nil)
-//@   loop 0 invariant[C01] specAll(t, path, old(next), header, 1) == specAll(t, path, next, header, captured)
+//@   ensures[C01,C09] result0 == specAll(t, path, next, header, 1) && result1 == (result0 != nil)
+//@   loop 0 invariant[C01,C09] specAll(t, path, old(next), header, 1) == specAll(t, path, next, header, captured)
 //@   requires 1 <= next && len(segment) <= next - 1 && segment == path[next - 1 - len(segment):next - 1] && path[next - 1] == '/'
 //@   ensures[C02] result1 ==> len(params[t.bind]) >= len(segment) && next - 1 - len(segment) + len(params[t.bind]) <= len(path) &&
 //@       params[t.bind] == path[next - 1 - len(segment):next - 1 - len(segment) + len(params[t.bind])]
